@@ -1020,6 +1020,34 @@ ref("stale-close-after-here-string", ["C04", "C08", "C02"],
             }
 """))
 
+mut("C20", "word-start-quote-toggle", "R20-6|completers::escaped_word_start|quote-state",
+    "any quote character toggles the quoted state of the word-start scanner",
+    ("src/completers/mod.rs", """        if !with_quote && !found_bs && (c == '"' || c == '\\'') {
+            with_quote = true;
+            ch_quote = c;
+        } else if with_quote && !found_bs && ch_quote == c {
+            with_quote = false;
+        }""", """        if !found_bs && (c == '"' || c == '\\'') {
+            with_quote = !with_quote;
+            ch_quote = c;
+        }"""))
+ref("word-start-quote-match", ["C20", "C05"], "quote tracking of the word-start scanner written with nested ifs",
+    ("src/completers/mod.rs", """        if !with_quote && !found_bs && (c == '"' || c == '\\'') {
+            with_quote = true;
+            ch_quote = c;
+        } else if with_quote && !found_bs && ch_quote == c {
+            with_quote = false;
+        }""", """        if !found_bs {
+            if with_quote {
+                if c == ch_quote {
+                    with_quote = false;
+                }
+            } else if c == '"' || c == '\\'' {
+                ch_quote = c;
+                with_quote = true;
+            }
+        }"""))
+
 # ------------------------------------------------------------------ more refactors
 ref("history-params-vec", ["C18"], "bind the INSERT parameters through a params! style slice",
     (H, "    match conn.execute(&sql, [line.trim(), info.as_str()]) {",
